@@ -94,13 +94,14 @@ From Verif Require Import Facts_lexer LexBase LexCodeM LexerM LexTables RefTok E
    evaluated by the extracted model on every correspondence input (ctxsim). *)
 Definition lexer_ctx_sim_statement : Prop := forall src : bytes, ctx_sim_ok src = true.
 
-(* This first statement is FALSE: four gaps of the reference fragment, each
+(* This first statement is FALSE: gaps of the reference fragment, each
    with a witness on which the lexer is right and the reference is not a
    description of what a browser does any more:
    - a show whose body holds a general comment with the closing braces inside
      (the reference ends the show at the first pair of closing braces),
-   - a show between the name of an end tag and its greater-than sign (the
-     reference skips to the greater-than sign without recording it),
+   - a show, or a quoted greater-than sign, between the name of an end tag
+     and its greater-than sign (the reference skips to the first greater-than
+     sign without looking),
    - a backslash in front of an end tag inside a string literal of a script
      (the reference takes it for an escape of the less-than sign; a browser
      ends the element),
@@ -117,18 +118,23 @@ Theorem C06_lexer_ctx_sim_refuted_end_tag : ctx_sim_ok sim_w2 = false.
 Proof. vm_compute. reflexivity. Qed.
 Theorem C06_lexer_ctx_sim_refuted_backslash : ctx_sim_ok sim_w3 = false.
 Proof. vm_compute. reflexivity. Qed.
+(* a quoted greater-than sign between the name of an end tag and its end,
+   <script></script <a title=">{{ s }}"> *)
+Definition sim_w5 : bytes := [60;115;99;114;105;112;116;62;60;47;115;99;114;105;112;116;32;60;97;32;116;105;116;108;101;61;34;62;123;123;32;115;32;125;125;34;62].
+Theorem C06_lexer_ctx_sim_refuted_end_tag_quote : ctx_sim_ok sim_w5 = false.
+Proof. vm_compute. reflexivity. Qed.
 (* a show inside a shebang line, which the lexer takes for one token *)
 Definition sim_w4 : bytes := [35;33;123;123;32;115;32;125;125].
 Theorem C06_lexer_ctx_sim_refuted_shebang : ctx_sim_ok sim_w4 = false.
 Proof. vm_compute. reflexivity. Qed.
 
-(* The corrected statement of layer (B): the same with the four gaps closed
+(* The corrected statement of layer (B): the same with these gaps closed
    (the witnesses are outside the fragment).  Stated, evaluated by the
    extracted model on every correspondence input (ctxsim2), not proved in
    full: see C06_lexer_ctx_sim_html_partial below. *)
 Definition lexer_ctx_sim_strict_statement : Prop := forall src : bytes, ctx_sim_ok2 opt_strict src = true.
 Example C06_strict_witnesses_outside :
-  map (ref_contexts2 opt_strict) [sim_w1; sim_w2; sim_w3; sim_w4] = [None; None; None; None].
+  map (ref_contexts2 opt_strict) [sim_w1; sim_w2; sim_w3; sim_w4; sim_w5] = [None; None; None; None; None].
 Proof. vm_compute. reflexivity. Qed.
 
 (* Proved: the corrected statement on the sub-fragment opt_html of
